@@ -265,13 +265,12 @@ class Worker(multiprocessing.Process):
         self.pending_answers.update({p_answer.msg.header.hop_by_hop: p_answer})
 
 
-    def remove_pending_answer(self, p_answer):
-        #: The waiter leaves the registry before its caller is woken: the
-        #: caller is free to send again at once, with the same Hop-by-Hop
-        #: identifier (a retry), and what would be removed afterwards is the
-        #: waiter of that new exchange.
-        self.pending_answers.pop(p_answer.msg.header.hop_by_hop, None)
-        p_answer.notify()
+    def take_pending_answer(self, msg):
+        #: Finding the waiter of an answer and taking it out of the registry
+        #: is one step: a duplicate of the answer, or one that comes when the
+        #: exchange is over, finds nothing - and cannot remove the waiter that
+        #: a retry with the same Hop-by-Hop identifier has registered since.
+        return self.pending_answers.pop(msg.header.hop_by_hop, None)
 
 
     def is_send_queue_empty(self):
@@ -542,14 +541,14 @@ class Bromelia:
         bromelia_logger.debug(f"{logging_info} Check if it is an expected "\
                               f"answer")
 
-        if worker.is_pending_answer(msg):
+        p_answer = worker.take_pending_answer(msg)
+
+        if p_answer is not None:
             bromelia_logger.debug(f"{logging_info} Found Hop-By-Hop in "\
                                   f"Pending answer")
 
-            p_answer = worker.get_pending_answer(msg.header.hop_by_hop)
             p_answer.update_msg(msg)
-
-            worker.remove_pending_answer(p_answer)
+            p_answer.notify()
 
 
     def create_error_answer(self, request):
